@@ -7,6 +7,7 @@ require (
 	github.com/bolkedebruin/rdpgw v0.0.0
 	github.com/coreos/go-oidc/v3 v3.9.0
 	github.com/go-jose/go-jose/v4 v4.0.5
+	github.com/jcmturner/gofork v1.7.6
 	github.com/m7913d/go-ntlm v0.0.1
 	github.com/prometheus/client_golang v1.19.0
 	golang.org/x/oauth2 v0.18.0
@@ -28,7 +29,7 @@ require (
 	github.com/gorilla/websocket v1.5.1 // indirect
 	github.com/hashicorp/go-uuid v1.0.3 // indirect
 	github.com/jcmturner/aescts/v2 v2.0.0 // indirect
-	github.com/jcmturner/gofork v1.7.6 // indirect
+	github.com/jcmturner/dnsutils/v2 v2.0.0 // indirect
 	github.com/jcmturner/goidentity/v6 v6.0.1 // indirect
 	github.com/knadh/koanf/maps v0.1.1 // indirect
 	github.com/knadh/koanf/parsers/yaml v0.1.0 // indirect
